@@ -26,7 +26,10 @@ type SCd struct {
 	NOA       int64 // ms; zeroTimeMs = attribute absent
 }
 
-type SConf struct{ Data *SCd }
+type SConf struct {
+	Data   *SCd
+	Method string // "" = bearer; the validator must treat every confirmation alike whatever its Method
+}
 
 type Cond struct {
 	NB, NOA int64
@@ -185,6 +188,12 @@ func (b *builder) assertionEl(a Assn, n int) *etree.Element {
 		subj := &saml.Subject{NameID: &saml.NameID{Value: a.Ident}}
 		for _, sc := range *a.Subject {
 			x := saml.SubjectConfirmation{Method: "urn:oasis:names:tc:SAML:2.0:cm:bearer"}
+			if sc.Method != "" {
+				x.Method = sc.Method
+				if sc.Method == "absent" {
+					x.Method = ""
+				}
+			}
 			if sc.Data != nil {
 				x.SubjectConfirmationData = &saml.SubjectConfirmationData{InResponseTo: sc.Data.IRT, Recipient: sc.Data.Recipient,
 					NotOnOrAfter: time.UnixMilli(sc.Data.NOA).UTC()}
